@@ -32,7 +32,13 @@ impl<T> Sender<T> {
     #[track_caller]
     pub fn send(&self, msg: T) -> Result<(), std::sync::mpsc::SendError<T>> {
         self.object.send(location!());
-        self.sender.send(msg)
+        self.sender.send(msg).map_err(|e| {
+            // The receiver has been dropped and the message comes back to the
+            // caller: it must not be counted as a message held by the channel
+            // (it would be reported as leaked).
+            self.object.undo_send();
+            e
+        })
     }
 }
 
